@@ -32,4 +32,4 @@ Deliverables, written to the directory {out} (create it):
 - `zz_demo_test.go`: the demonstration test
 - `notes.md`: 5-10 lines: what the change is, which clause of the property it breaks, and exactly what is needed for it to manifest.
 
-Before finishing, verify all of this yourself: run the full suite with the change; run the demo test with the change (must fail) and, after `git stash`/checkout of the library change, without it (must pass); then re-apply nothing - just leave the worktree as it is. Reply with a short summary (what you changed, the trigger, and the verification commands you ran with their results).""")
+Before finishing, verify all of this yourself: run the full suite with the change; run the demo test with the change (must fail) and without it (must pass). NEVER use `git stash` (the stash is shared with other worktrees): to test without the change run `git diff > /tmp/my.diff; git checkout -- .` and afterwards `git apply /tmp/my.diff`. Leave the worktree with your change applied. Reply with a short summary (what you changed, the trigger, and the verification commands you ran with their results).""")
